@@ -14,6 +14,7 @@ CONSTANTS
   ForcedWaits = FALSE
   LifoQueue = FALSE
   DrainOnlyAtStop = FALSE
+  ErrKeepsPolling = FALSE
 SPECIFICATION FairSpec
 PROPERTIES C06w_StopAnswered
 CHECK_DEADLOCK FALSE
